@@ -7,7 +7,7 @@ From ClapModel Require Import Parse.Cmd Parse.Build Parse.Valid Parse.Matcher Pa
 From ClapModel Require Import ParseProofs.Safe ParseProofs.Invariant ParseProofs.Totality
                               ParseProofs.ValidateTotal ParseProofs.Relations ParseProofs.TotalityMain
                               ParseProofs.Sites ParseProofs.SitesComplete ParseProofs.FlagSubClass
-                              ParseProofs.FsTotality.
+                              ParseProofs.FsTotality ParseProofs.FsAny ParseProofs.FsLine ParseProofs.FsResume ParseProofs.FsTop ParseProofs.SitesCoverage.
 From ClapModel Require Import Errors.RenderModel Errors.RenderLink.
 From ClapModel Require Gen.ErrorCtx.
 From ClapModel Require Gen.ParseSites.
@@ -129,9 +129,6 @@ Theorem C01_sites_reasoned_rows :
       ("parser/arg_matcher.rs", "ArgMatcher::start_custom_arg", "debug_assert_eq!", 0);
       ("parser/arg_matcher.rs", "ArgMatcher::start_custom_group", "debug_assert_eq!", 0);
       ("parser/arg_matcher.rs", "ArgMatcher::start_occurrence_of_external", "debug_assert_eq!", 0);
-      ("parser/arg_matcher.rs", "ArgMatcher::start_occurrence_of_external", "expect", 0);
-      ("parser/matches/matched_arg.rs", "MatchedArg::new_external", "expect", 0);
-      ("parser/validator.rs", "Validator::missing_required_error", "debug_assert!", 0);
       ("builder/command.rs", "Command::_build_subcommand", "unwrap", 0);
       ("builder/command.rs", "Command::_build_subcommand", "unwrap", 1);
       ("builder/command.rs", "Command::format_group", "unwrap", 0) ]%string.
@@ -290,3 +287,371 @@ Theorem C01_flag_sub_class_satisfiable :
   /\ flag_sub_class stale_cmd = false /\ flag_sub_class hyphen_cmd = false /\ flag_sub_class hyphen2_cmd = false.
 Proof. exact flag_sub_class_examples. Qed.
 Print Assumptions C01_flag_sub_class_satisfiable.
+
+(** ---------- round 5 (A): the top-level theorems for the definition as the user wrote it ----------
+    ParseProofs/FsTop.v.  [try_get_matches_from] stores argv[0] as the program name before building; rounds 1-4
+    asked for gate and class "under every program name".  Neither reads the name: *)
+Theorem C01_valid_any_bin_name : forall c0 b, valid (c0 <| c_bin_name := b |>) = valid c0.
+Proof. exact valid_bin_name. Qed.
+Print Assumptions C01_valid_any_bin_name.
+
+Theorem C01_flag_sub_class_any_bin_name : forall c0 b, flag_sub_class (c0 <| c_bin_name := b |>) = flag_sub_class c0.
+Proof. exact flag_sub_class_bin_name. Qed.
+Print Assumptions C01_flag_sub_class_any_bin_name.
+
+(** MAIN THEOREM at the entry point: for every definition of the class that the gate accepts and EVERY argv
+    (program name included, any bytes), [try_get_matches_from] neither panics nor runs out of fuel.  Subsumes
+    [C01_no_panic_top] and [C01_no_panic_flag_subs_top] (their extra hypotheses follow from the two above). *)
+Theorem C01_no_panic_argv : forall c0 argv,
+  flag_sub_class c0 = true -> valid c0 = true ->
+  match parse_top c0 argv with OPanicked _ | OOutOfFuel => False | _ => True end.
+Proof. exact parse_top_total_fs_any_bin. Qed.
+Print Assumptions C01_no_panic_argv.
+
+(** [_build_self] neither sets nor clears IgnoreErrors: what the parser reads on the built root is what the user set
+    ([Command::ignore_errors] = the global setting; [is_set] reads local or global) *)
+Theorem C01_ignore_errors_setting_kept : forall c, is_set s_ignore_errors (build_self c) = is_set s_ignore_errors c.
+Proof. exact ignore_errors_build_self. Qed.
+Print Assumptions C01_ignore_errors_setting_kept.
+
+(** THE ERROR-IGNORING CONTRACT at the entry point, as the property states it: for every definition of the class
+    that the gate accepts and that has error-ignoring enabled, and EVERY argv, the result is matches or an error of
+    kind DisplayHelp / DisplayVersion -- never a panic, never out of fuel, never another error kind (in
+    particular not DisplayHelpOnMissingArgumentOrSubcommand, the [arg_required_else_help] error, which uses
+    stderr).  [C01_ignore_errors] (round 1) allowed panics and spoke about the built root's setting. *)
+Theorem C01_ignore_errors_top : forall c0 argv,
+  flag_sub_class c0 = true -> valid c0 = true -> is_set s_ignore_errors c0 = true ->
+  match parse_top c0 argv with
+  | OOk _ => True
+  | OErr e => e_kind e = EDisplayHelp \/ e_kind e = EDisplayVersion
+  | OPanicked _ | OOutOfFuel | OInvalidConfig => False
+  end.
+Proof. exact parse_top_ignore_errors_exact. Qed.
+Print Assumptions C01_ignore_errors_top.
+
+(** non-vacuity and sharpness: a definition with a short flag-subcommand, required options, [arg_required_else_help]
+    and [subcommand_required]; six faulty lines (nothing, unknown argument, re-read cluster with a non-UTF-8 byte,
+    -V without a version, `help` + unknown name, option without value in the child) all yield matches; `--help`
+    and `help s` still end the parse with DisplayHelp; without the setting each faulty line is an error *)
+Theorem C01_ignore_errors_top_example :
+  flag_sub_class ign_cmd = true /\ valid ign_cmd = true /\ is_set s_ignore_errors ign_cmd = true
+  /\ plain ign_cmd = false
+  /\ map (fun l => outcome_kind (parse_top ign_cmd l)) ign_lines = map (fun _ => Some None) ign_lines
+  /\ outcome_kind (parse_top ign_cmd [[112]; [45; 45; 104; 101; 108; 112]]) = Some (Some EDisplayHelp)
+  /\ outcome_kind (parse_top ign_cmd [[112]; [104; 101; 108; 112]; [115]]) = Some (Some EDisplayHelp)
+  /\ map (fun l => outcome_kind (parse_top (ign_cmd <| c_gset := settings_none |>) l)) ign_lines
+     = [Some (Some EDisplayHelpOnMissing); Some (Some EUnknownArgument); Some (Some EUnknownArgument);
+        Some (Some EUnknownArgument); Some (Some EInvalidSubcommand); Some (Some EInvalidValue)].
+Proof. exact ignore_errors_example. Qed.
+Print Assumptions C01_ignore_errors_top_example.
+
+(** ---------- round 5 (B): EVERY definition the gate accepts; the one reachable panic site ----------
+    ParseProofs/FsAny.v.  Class [unbuilt]: the internal Built flag is unset (local and global settings) on every node
+    of the definition -- a syntactic check; users cannot set the flag.  No condition on short flag-subcommands:
+    nesting, hyphen values, negative numbers anywhere. *)
+
+(** MAIN THEOREM for the full class.  For every definition the gate accepts and EVERY token list, parsing does not
+    run out of fuel, and the only panic site it can reach is 920 = `debug_assert_eq!(short_arg.advance_by(skip), Ok(()))`
+    of Parser::parse_short_arg (the recorded finding C01-flag-subcmd-skip).  Every other unwrap / expect / unreachable! /
+    debug_assert / index / unsigned subtraction on the parse path -- in particular `cur_idx - flag_subcmd_at` (243), which
+    [C01_sites_dead_flag_subs] excludes only for flat short flag-subcommands -- is dead for every valid definition. *)
+Theorem C01_only_site_920 : forall c0 toks,
+  unbuilt c0 = true -> valid c0 = true ->
+  match do_parse c0 toks with OPanicked s => s = 920 | OOutOfFuel => False | _ => True end.
+Proof. exact do_parse_only_920. Qed.
+Print Assumptions C01_only_site_920.
+
+(** the same at the entry point, for every argv (program name included) *)
+Theorem C01_only_site_920_argv : forall c0 argv,
+  unbuilt c0 = true -> valid c0 = true ->
+  match parse_top c0 argv with OPanicked s => s = 920 | OOutOfFuel => False | _ => True end.
+Proof. exact parse_top_only_920. Qed.
+Print Assumptions C01_only_site_920_argv.
+
+(** every [Modelled] row of the panic-site table ([C01_sites_match]: the sites of the Rust source today) except that one
+    assertion is dead for EVERY valid definition *)
+Theorem C01_sites_dead_any_valid : forall c0 toks, unbuilt c0 = true -> valid c0 = true ->
+  forall n, In n modelled_sites -> n <> 920 -> do_parse c0 toks <> OPanicked n.
+Proof. exact sites_dead_any. Qed.
+Print Assumptions C01_sites_dead_any_valid.
+
+(** the error-ignoring contract for EVERY valid definition with the setting: matches, a help / version request, or that
+    one assertion -- no other error kind, no other panic, no fuel exhaustion *)
+Theorem C01_ignore_errors_any_valid : forall c0 argv,
+  unbuilt c0 = true -> valid c0 = true -> is_set s_ignore_errors c0 = true ->
+  match parse_top c0 argv with
+  | OOk _ => True
+  | OErr e => e_kind e = EDisplayHelp \/ e_kind e = EDisplayVersion
+  | OPanicked s => s = 920
+  | OOutOfFuel | OInvalidConfig => False
+  end.
+Proof. exact parse_top_ignore_errors_any. Qed.
+Print Assumptions C01_ignore_errors_any_valid.
+
+(** non-vacuity and sharpness: the witnesses of the recorded finding (stale [at] through nesting; skip left unconsumed by
+    a hyphen-value positional; both; the round-1 witness with a three-index flag) satisfy the hypotheses, lie outside
+    [flag_sub_class], and reach 920 -- so the exception is necessary; other lines on the same nested definitions parse *)
+Theorem C01_only_site_920_examples :
+  (unbuilt stale_cmd = true /\ valid stale_cmd = true /\ flag_sub_class stale_cmd = false
+   /\ parse_top stale_cmd [[112]; [45; 83; 120]; [45; 81; 121]] = OPanicked 920
+   /\ outcome_kind (parse_top stale_cmd [[112]; [45; 83; 120; 81; 121]]) = Some None
+   /\ outcome_kind (parse_top stale_cmd [[112]; [45; 83]; [45; 81; 121]]) = Some None)
+  /\ (unbuilt hyphen_cmd = true /\ valid hyphen_cmd = true /\ flag_sub_class hyphen_cmd = false
+      /\ parse_top hyphen_cmd [[112]; [45; 83; 122]; [45; 255]] = OPanicked 920)
+  /\ (unbuilt hyphen2_cmd = true /\ valid hyphen2_cmd = true /\ flag_sub_class hyphen2_cmd = false)
+  /\ (unbuilt refuted_nested_cmd = true /\ valid refuted_nested_cmd = true
+      /\ parse_top refuted_nested_cmd [[112]; [45; 83; 102; 113; 122]] = OPanicked 920).
+Proof. exact only_920_examples. Qed.
+Print Assumptions C01_only_site_920_examples.
+
+(** ---------- round 5 (C): every source site has a coverage class; the classes are pinned by name ----------
+    ParseProofs/SitesCoverage.v, SitesGuards.v.  Three rows that rounds 2-4 justified in prose now carry statements about the
+    model proved for every definition and input ([external_guarded]: the loop returns LExternal only under
+    AllowExternalSubcommands -- the guard of the two `get_external_subcommand_value_parser().expect`s; [missing_known]:
+    every id validate_required collects is an argument or group of the command); [C01_sites_reasoned_rows] above lists the
+    10 rows left. *)
+
+(** what each coverage class claims, for every site of that class *)
+Theorem C01_sites_coverage_sound : forall k cov, In (k, cov) site_coverage ->
+  match cov with
+  | CovAllDefs => exists P w, In (k, Proved P w) model_site_table /\ P
+  | CovValid => exists l, In (k, Modelled l) model_site_table
+      /\ forall c0 toks, unbuilt c0 = true -> valid c0 = true -> forall n, In n l -> do_parse c0 toks <> OPanicked n
+  | CovClassOnly => exists l, In (k, Modelled l) model_site_table
+      /\ forall c0 toks, flag_sub_class c0 = true -> valid c0 = true -> forall n, In n l -> do_parse c0 toks <> OPanicked n
+  | CovReasoned => exists w, In (k, Reasoned w) model_site_table
+  end.
+Proof. exact sites_coverage_sound. Qed.
+Print Assumptions C01_sites_coverage_sound.
+
+(** the classification covers exactly the sites the translator finds in the source today, and the members of each class
+    are these (47 of today's 48 sites are covered for every valid definition or justified locally; ONE site is reachable --
+    outside [flag_sub_class] only).  The lists CovClassOnly and CovReasoned are the "differential only" lists the check
+    prints into the evidence (vp/props/c01.py reads them from this statement). *)
+Theorem C01_sites_classified :
+  (List.map fst site_coverage = Gen.ParseSites.parse_sites
+  /\ sites_of CovAllDefs =
+     [ ("parser/parser.rs", "Parser::parse_help_subcommand", "unwrap", 0);
+       ("parser/parser.rs", "Parser::parse_opt_value", "debug_assert_eq!", 0);
+       ("parser/parser.rs", "Parser::parse_opt_value", "debug_assert_eq!", 1);
+       ("parser/arg_matcher.rs", "ArgMatcher::start_occurrence_of_external", "expect", 0);
+       ("parser/matches/matched_arg.rs", "MatchedArg::new_external", "expect", 0);
+       ("parser/validator.rs", "Validator::missing_required_error", "debug_assert!", 0);
+       ("builder/command.rs", "Command::contains_short", "debug_assert!", 0) ]
+  /\ sites_of CovValid =
+     [ ("parser/parser.rs", "Parser::parse", "index", 0);
+       ("parser/parser.rs", "Parser::parse", "unreachable!", 1);
+       ("parser/parser.rs", "Parser::parse", "unreachable!", 2);
+       ("parser/parser.rs", "Parser::parse", "sub", 0);
+       ("parser/parser.rs", "Parser::parse", "unreachable!", 3);
+       ("parser/parser.rs", "Parser::parse", "index", 1);
+       ("parser/parser.rs", "Parser::parse", "expect", 0);
+       ("parser/parser.rs", "Parser::is_new_arg", "index", 0);
+       ("parser/parser.rs", "Parser::is_new_arg", "index", 1);
+       ("parser/parser.rs", "Parser::parse_long_arg", "index", 0);
+       ("parser/parser.rs", "Parser::parse_long_arg", "debug_assert!", 0);
+       ("parser/parser.rs", "Parser::parse_short_arg", "index", 0);
+       ("parser/parser.rs", "Parser::parse_short_arg", "index", 1);
+       ("parser/parser.rs", "Parser::resolve_pending", "expect", 0);
+       ("parser/parser.rs", "Parser::verify_num_args", "expect", 0);
+       ("parser/parser.rs", "Parser::verify_num_args", "expect", 1);
+       ("parser/arg_matcher.rs", "ArgMatcher::add_val_to", "expect", 0);
+       ("parser/arg_matcher.rs", "ArgMatcher::add_index_to", "expect", 0);
+       ("parser/arg_matcher.rs", "ArgMatcher::needs_more_vals", "expect", 0);
+       ("parser/arg_matcher.rs", "ArgMatcher::pending_values_mut", "debug_assert_eq!", 0);
+       ("parser/arg_matcher.rs", "ArgMatcher::pending_values_mut", "debug_assert_eq!", 1);
+       ("parser/matches/matched_arg.rs", "MatchedArg::append_val", "expect", 0);
+       ("parser/matches/matched_arg.rs", "MatchedArg::append_val", "expect", 1);
+       ("parser/validator.rs", "Validator::build_conflict_err", "expect", 0);
+       ("parser/validator.rs", "Validator::build_conflict_err", "expect", 1);
+       ("parser/validator.rs", "gather_direct_conflicts", "debug_assert!", 0);
+       ("parser/validator.rs", "gather_arg_direct_conflicts", "expect", 0);
+       ("builder/command.rs", "Command::_build_self", "assert_app", 0);
+       ("builder/command.rs", "Command::unroll_args_in_group", "expect", 0);
+       ("builder/command.rs", "Command::index", "expect", 0) ]
+  /\ sites_of CovClassOnly =
+     [ ("parser/parser.rs", "Parser::parse_short_arg", "debug_assert_eq!", 0) ]
+  /\ sites_of CovReasoned =
+     [ ("parser/parser.rs", "Parser::parse", "unreachable!", 0);
+       ("parser/parser.rs", "Parser::parse", "unreachable!", 4);
+       ("parser/parser.rs", "Parser::parse", "debug_assert_eq!", 0);
+       ("parser/parser.rs", "Parser::did_you_mean_error", "index", 0);
+       ("parser/arg_matcher.rs", "ArgMatcher::start_custom_arg", "debug_assert_eq!", 0);
+       ("parser/arg_matcher.rs", "ArgMatcher::start_custom_group", "debug_assert_eq!", 0);
+       ("parser/arg_matcher.rs", "ArgMatcher::start_occurrence_of_external", "debug_assert_eq!", 0);
+       ("builder/command.rs", "Command::_build_subcommand", "unwrap", 0);
+       ("builder/command.rs", "Command::_build_subcommand", "unwrap", 1);
+       ("builder/command.rs", "Command::format_group", "unwrap", 0) ])%string.
+Proof. exact sites_classified. Qed.
+Print Assumptions C01_sites_classified.
+
+(** ---------- round 5 (D): the line side of the finding ----------
+    ParseProofs/FsLine.v.  [single_clusters argv]: no token is a short cluster of more than one character (`-x` is allowed;
+    `-xy`, `-x=v`, `-xVALUE` are not; long options, values, `-`, `--`, non-UTF-8 tokens are unrestricted). *)
+
+(** for EVERY definition the gate accepts -- any nesting of short flag-subcommands, hyphen values anywhere -- a line of that
+    class never reaches a panic site nor runs out of fuel: [flag_subcmd_at] is set only when a short flag-subcommand letter
+    is followed by more of its cluster.  With [C01_no_panic_flag_subs] (definition side) and [C01_only_site_920]: a panic
+    needs a definition outside [flag_sub_class] AND a multi-character short cluster on the line, and is then the
+    assertion 920. *)
+Theorem C01_no_panic_single_clusters : forall c0 toks,
+  unbuilt c0 = true -> valid c0 = true -> single_clusters toks = true ->
+  match do_parse c0 toks with OPanicked _ | OOutOfFuel => False | _ => True end.
+Proof. exact do_parse_single_clusters. Qed.
+Print Assumptions C01_no_panic_single_clusters.
+
+Theorem C01_no_panic_single_clusters_argv : forall c0 argv,
+  unbuilt c0 = true -> valid c0 = true -> single_clusters argv = true ->
+  match parse_top c0 argv with OPanicked _ | OOutOfFuel => False | _ => True end.
+Proof. exact parse_top_single_clusters. Qed.
+Print Assumptions C01_no_panic_single_clusters_argv.
+
+(** the tokens a subcommand level receives are a suffix of its parent's (the rest of the line, or the rest with the
+    re-read cluster in front) -- for every definition and every loop state *)
+Theorem C01_sub_tokens_suffix : forall c toks ls st n keep vaf st' toks',
+  parse_loop c toks ls st = ROk (LSub n keep vaf st' toks') -> exists pre, toks = pre ++ toks'.
+Proof. exact SitesGuards.sub_tokens_suffix. Qed.
+Print Assumptions C01_sub_tokens_suffix.
+
+(** non-vacuity and sharpness on the nested definition of the finding: `p -S -x -Q -y` parses through two levels of short
+    flag-subcommands; `p -Sx -Qy` is outside the class and reaches 920 *)
+Theorem C01_single_clusters_examples :
+  unbuilt stale_cmd = true /\ valid stale_cmd = true /\ flag_sub_class stale_cmd = false
+  /\ single_clusters [[112]; [45; 83]; [45; 120]; [45; 81]; [45; 121]] = true
+  /\ outcome_kind (parse_top stale_cmd [[112]; [45; 83]; [45; 120]; [45; 81]; [45; 121]]) = Some None
+  /\ single_clusters [[112]; [45; 83; 120]; [45; 81; 121]] = false
+  /\ parse_top stale_cmd [[112]; [45; 83; 120]; [45; 81; 121]] = OPanicked 920
+  /\ single_clusters [[112]; [45; 83]; [45; 195; 169]; [45]; [45; 45]; [45; 45; 120; 61; 49]; [45; 255]] = true
+  /\ single_clusters [[112]; [45; 120; 61]] = false.
+Proof. exact single_clusters_examples. Qed.
+Print Assumptions C01_single_clusters_examples.
+
+(** the panic-shaped sites of the files reached while an error is constructed (usage string: output/usage.rs; help text of a
+    DisplayHelp error: output/help_template.rs, builder/styled_str.rs), regenerated from the source on every run.  Outside the
+    parser model -- C12 models them and proves them dead for its class (C12_usage_total, C12_padding_safe, C12_render_total);
+    for C01: differential only (every error is rendered under catch_unwind on every case).  Pinned so that a new site on that
+    path fails this gate until it is acknowledged here. *)
+Theorem C01_render_path_sites :
+  (Gen.ParseSites.render_path_sites =
+     [
+       ("output/usage.rs", "Usage::write_args", "debug_assert!", 0);
+       ("output/usage.rs", "Usage::write_args", "index", 0);
+       ("output/usage.rs", "Usage::write_args", "debug_assert!", 1);
+       ("output/usage.rs", "Usage::write_args", "unwrap", 0);
+       ("output/usage.rs", "Usage::write_args", "index", 1);
+       ("output/usage.rs", "Usage::write_args", "index", 2);
+       ("output/usage.rs", "Usage::write_args", "unwrap", 1);
+       ("output/usage.rs", "Usage::write_args", "index", 3);
+       ("output/usage.rs", "Usage::write_args", "index", 4);
+       ("output/usage.rs", "Usage::write_args", "index", 5);
+       ("output/usage.rs", "Usage::get_required_usage_from", "debug_assert!", 0);
+       ("output/usage.rs", "Usage::get_required_usage_from", "index", 0);
+       ("output/usage.rs", "Usage::get_required_usage_from", "debug_assert!", 1);
+       ("output/help_template.rs", "HelpTemplate::align_to_about", "sub", 0);
+       ("output/help_template.rs", "HelpTemplate::align_to_about", "sub", 1);
+       ("output/help_template.rs", "HelpTemplate::help", "expect", 0);
+       ("output/help_template.rs", "HelpTemplate::help", "sub", 0);
+       ("output/help_template.rs", "HelpTemplate::help", "sub", 1);
+       ("output/help_template.rs", "HelpTemplate::help", "sub", 2);
+       ("output/help_template.rs", "HelpTemplate::arg_next_line_help", "sub", 0);
+       ("output/help_template.rs", "HelpTemplate::subcommand_next_line_help", "sub", 0);
+       ("output/help_template.rs", "HelpTemplate::subcmd", "sub", 0);
+       ("builder/styled_str.rs", "StyledStr::wrap", "sub", 0);
+       ("builder/styled_str.rs", "StyledStr::wrap", "index", 0);
+       ("builder/styled_str.rs", "StyledStr::wrap", "index", 1) ])%string.
+Proof. exact render_path_sites_listed. Qed.
+Print Assumptions C01_render_path_sites.
+
+(** ---------- round 5: the property statement at the entry point, in one theorem ----------
+    For EVERY definition the gate accepts and EVERY argv, [try_get_matches_from] returns
+    - matches, or
+    - a structured error that stands for rich errors each of which renders without panic, and that under error-ignoring is a
+      help / version request, or
+    - (the recorded finding, and nothing else) the panic of the one debug assertion 920 -- and then the definition is outside
+      [flag_sub_class] AND the line contains a short cluster in which a short flag-subcommand letter of the definition is
+      followed by further characters (for every letter set [L] covering those letters the line is outside [no_resume L];
+      in particular it contains a cluster of more than one character);
+    never out of fuel, never "invalid configuration", never another panic site. *)
+Theorem C01_entry_point_summary : forall c0 argv, unbuilt c0 = true -> valid c0 = true ->
+  match parse_top c0 argv with
+  | OOk _ => True
+  | OErr e =>
+      (rich_alternatives e <> [] /\ forall r, In r (rich_alternatives e) -> forall dbg s, render dbg r <> Panic s)
+      /\ (is_set s_ignore_errors c0 = true -> e_kind e = EDisplayHelp \/ e_kind e = EDisplayVersion)
+  | OPanicked s => s = 920 /\ flag_sub_class c0 = false /\ single_clusters argv = false
+                   /\ (forall L, letters_inb L c0 = true -> no_resume L argv = false)
+  | OOutOfFuel | OInvalidConfig => False
+  end.
+Proof. exact entry_point_summary. Qed.
+Print Assumptions C01_entry_point_summary.
+
+(** [C01_renders] at the entry point *)
+Theorem C01_renders_argv : forall c0 argv e, parse_top c0 argv = OErr e ->
+  rich_alternatives e <> []
+  /\ forall r, In r (rich_alternatives e) ->
+       constructed r
+       /\ (r_kind r = e_kind e \/ Some (r_kind r) = e_alt e)
+       /\ (forall dbg s, render dbg r <> Panic s)
+       /\ (rich_expected r = true -> forall dbg, exists txt, write_dynamic_context dbg r = Done (true, txt)).
+Proof. exact parser_errors_render_top. Qed.
+Print Assumptions C01_renders_argv.
+
+(** ---------- round 5 (F): the line side, sharpened: the resume logic is never engaged ----------
+    ParseProofs/FsResume.v.  [letters_inb L c0] (syntactic): [L] contains every short flag and short-flag alias of every
+    subcommand of the definition, at every depth.  [no_resume L argv]: in no short cluster of the line is a character of [L]
+    followed by further characters (`-abc`, `-ovalue`, `-j4`, `-o=v`, `-abS` are fine; `-Sx` is not). *)
+
+(** for EVERY definition the gate accepts, every covering letter set and every line of the class, parsing never reaches a
+    panic site nor runs out of fuel -- [flag_subcmd_at] stays unset at every level, so [flag_subcmd_skip] stays 0.
+    [C01_no_panic_single_clusters] is the special case ([C01_single_clusters_no_resume]). *)
+Theorem C01_no_panic_no_resume : forall c0 L toks,
+  unbuilt c0 = true -> valid c0 = true -> letters_inb L c0 = true -> no_resume L toks = true ->
+  match do_parse c0 toks with OPanicked _ | OOutOfFuel => False | _ => True end.
+Proof. exact do_parse_no_resume. Qed.
+Print Assumptions C01_no_panic_no_resume.
+
+Theorem C01_no_panic_no_resume_argv : forall c0 L argv,
+  unbuilt c0 = true -> valid c0 = true -> letters_inb L c0 = true -> no_resume L argv = true ->
+  match parse_top c0 argv with OPanicked _ | OOutOfFuel => False | _ => True end.
+Proof. exact parse_top_no_resume. Qed.
+Print Assumptions C01_no_panic_no_resume_argv.
+
+Theorem C01_single_clusters_no_resume : forall L toks, single_clusters toks = true -> no_resume L toks = true.
+Proof. exact single_clusters_no_resume. Qed.
+Print Assumptions C01_single_clusters_no_resume.
+
+(** the step behind it, for ANY parser state and ANY [flag_subcmd_skip]: on a cluster of the class [parse_short_arg] reports a
+    short flag-subcommand only with [flag_subcmd_at] cleared (so the loop does not ask for [keep_state]) *)
+Theorem C01_flag_sub_at_end_clears_at : forall c L, (forall ch, In ch (letters_here c) -> In ch L) ->
+  forall r pst pc vaf st st1 n vaf1, CO L r ->
+  parse_short_arg c r pst pc vaf st = ROk (st1, PRFlagSub n, vaf1) -> fs_at st1 = None.
+Proof.
+  intros c L HL r pst pc vaf st st1 n vaf1 Hco H.
+  pose proof (parse_short_arg_at c L HL r pst pc vaf st Hco) as G. rewrite H in G. exact (G n eq_refl).
+Qed.
+Print Assumptions C01_flag_sub_at_end_clears_at.
+
+(** non-vacuity and sharpness on the nested definition of the finding (letters S, Q) *)
+Theorem C01_no_resume_examples :
+  unbuilt stale_cmd = true /\ valid stale_cmd = true /\ flag_sub_class stale_cmd = false
+  /\ letters_inb [83; 81] stale_cmd = true /\ letters_inb [83] stale_cmd = false
+  /\ no_resume [83; 81] [[112]; [45; 83]; [45; 120; 119; 81]; [45; 121]] = true
+  /\ outcome_kind (parse_top stale_cmd [[112]; [45; 83]; [45; 120; 119; 81]; [45; 121]]) = Some None
+  /\ single_clusters [[112]; [45; 83]; [45; 120; 119; 81]; [45; 121]] = false
+  /\ no_resume [83; 81] [[112]; [45; 83; 120]; [45; 81; 121]] = false
+  /\ no_resume [83; 81] [[112]; [45; 83; 120]] = false
+  /\ outcome_kind (parse_top stale_cmd [[112]; [45; 83; 120]]) = Some None.
+Proof. exact no_resume_examples. Qed.
+Print Assumptions C01_no_resume_examples.
+
+(** observation (not a violation: the property says "except"): under error-ignoring a help request inside a subcommand
+    (`p -Sh`, `p s --help`) yields matches -- [parse_subcommand] drops every error of the child level; without the setting the
+    same lines give DisplayHelp.  Same on the real crate (corpus/C01/parse-ignore-errors.round5.cases). *)
+Theorem C01_ignore_errors_swallows_help_in_subcommand :
+  outcome_kind (parse_top ign_cmd [[112]; [45; 83; 104]]) = Some None
+  /\ outcome_kind (parse_top ign_cmd [[112]; [115]; [45; 45; 104; 101; 108; 112]]) = Some None
+  /\ outcome_kind (parse_top (ign_cmd <| c_gset := settings_none |>) [[112]; [45; 83; 104]]) = Some (Some EDisplayHelp)
+  /\ outcome_kind (parse_top (ign_cmd <| c_gset := settings_none |>) [[112]; [115]; [45; 45; 104; 101; 108; 112]])
+     = Some (Some EDisplayHelp).
+Proof. exact ignore_errors_swallows_help_in_subcommand. Qed.
+Print Assumptions C01_ignore_errors_swallows_help_in_subcommand.
